@@ -50,6 +50,9 @@ pub struct Tracer {
     prop: String,
     only: Option<String>,
     muted: bool,
+    events_all: u64,
+    events_at_case_start: u64,
+    pub empty_cases: u64,
 }
 
 impl Tracer {
@@ -68,6 +71,9 @@ impl Tracer {
             shards,
             cur: 0,
             cases: 0,
+            events_all: 0,
+            events_at_case_start: 0,
+            empty_cases: 0,
             events: 0,
             kinds: BTreeMap::new(),
             classes: BTreeMap::new(),
@@ -86,6 +92,11 @@ impl Tracer {
 
     /// Start a new case: picks the next shard round-robin. `v` must be an object with "ev":"case".
     pub fn case(&mut self, mut v: Value) {
+        // a case that logged nothing but its own header drove nothing: counted, so that lost coverage shows in the evidence
+        if self.cases > 0 && self.events_at_case_start + 1 >= self.events_all {
+            self.empty_cases += 1;
+        }
+        self.events_at_case_start = self.events_all;
         self.cases += 1;
         self.cur = (self.cases as usize) % self.shards.len();
         let id = format!("{}-{:06}", self.prop.to_lowercase(), self.cases);
@@ -106,6 +117,7 @@ impl Tracer {
 
     pub fn ev(&mut self, v: Value) {
         HEARTBEAT.fetch_add(1, std::sync::atomic::Ordering::Relaxed);
+        self.events_all += 1;
         if self.muted {
             return;
         }
@@ -145,6 +157,7 @@ impl Tracer {
             "kinds": self.kinds,
             "classes": self.classes,
             "distinct": self.sigs.len(),
+            "empty_cases": self.empty_cases,
             "samples": self.samples,
             "extra": extra,
         });
